@@ -154,7 +154,7 @@ machine does not have -/
 def fmtA (a : Spec.AState) : String :=
   let pages := (List.range 8).map fun n =>
     if n ∈ Spec.pagesOf a.model then hex64 (fnv (a.page n)) else "-"
-  let shown := (Spec.shownPagesOf a.model).map fun n => hex64 (fnv (a.shown n))
+  let shown := (Spec.shownPagesOf a.model).map fun n => hex64 (fnv (a.page n))
   fmtRegs a.regs ++
   s!" halt={bit a.halted} skip={bit a.eiPending} mid={bit a.midInstr} lat={hex8 a.latch} lk={bit a.locked}" ++
   s!" bd={hex8 a.border} bdev={hex8 a.borderShown} pages={",".intercalate pages} shown={",".intercalate shown}" ++
@@ -163,7 +163,8 @@ def fmtA (a : Spec.AState) : String :=
 
 /-- model-only extras (not part of the abstract state) -/
 def fmtExtra (m : Machine) : String :=
-  s!" pfx={pfxNum m.cpu.pfx} kemp={bit m.kempston} sb={m.screenBank} rom={m.map0} top={m.map3} mp={hex16 m.cpu.memptr} q={hex8 m.cpu.q} ear={bit m.ear} mic={bit m.mic}"
+  let scr := (Spec.shownPagesOf m.kind).map fun n => hex64 (fnv (m.scr (Spec.absPage m.kind n)))
+  s!" scr={",".intercalate scr} pfx={pfxNum m.cpu.pfx} kemp={bit m.kempston} sb={m.screenBank} rom={m.map0} top={m.map3} mp={hex16 m.cpu.memptr} q={hex8 m.cpu.q} ear={bit m.ear} mic={bit m.mic}"
 
 def fmtM (m : Machine) : String := fmtA (Spec.abs m) ++ fmtExtra m
 
